@@ -7,7 +7,8 @@
 (* wrappers) must be behaviours of OpsCache; the property invariants are   *)
 (* evaluated in every state reached.                                       *)
 (*                                                                         *)
-(* Trace header: [level, inst, mode, scr, dyn, v, seed, form, v0, exact, driven, ev]. *)
+(* Trace header: [level, inst, mode, scr, dyn, v, seed, form, v0, exact, driven, ev]   *)
+(* and, optionally, hist (device history, default "fresh").                *)
 (* exact = TRUE: the logged (quantised) matrix entries are bound to the    *)
 (* model's matrices; otherwise only the abstract flags are bound.          *)
 (***************************************************************************)
@@ -24,7 +25,8 @@ Ev == T.ev[l]
 TInit == /\ tid \in 1..Len(Batch) /\ l = 1
          /\ cfg = [inst |-> Batch[tid].inst, mode |-> Batch[tid].mode, scr |-> Batch[tid].scr,
                    dyn |-> Batch[tid].dyn, v |-> Batch[tid].v, seed |-> Batch[tid].seed,
-                   form |-> Batch[tid].form, v0 |-> Batch[tid].v0]
+                   form |-> Batch[tid].form, v0 |-> Batch[tid].v0,
+                   hist |-> IF "hist" \in DOMAIN Batch[tid] THEN Batch[tid].hist ELSE "fresh"]
          /\ InitCommon
          /\ pc = IF Batch[tid].level = "ops" THEN "ops" ELSE "ctor"
 
@@ -90,7 +92,9 @@ TInduced == /\ IsEv("induced")
 
 TFinish == /\ IsEv("finish") /\ Finish
            /\ Ev.term = tv
-           /\ Ev.term_api = tv             \* the same on the sites Device.terminal_info() names
+           \* the same on the sites Device.terminal_info() names (when the mechanism takes the current terminals'
+           \* sites for terminal sites; otherwise that observation is about other sites and constrains nothing)
+           /\ (MechSites = FixedSites) => Ev.term_api = tv
            /\ (~cfg.scr => Ev.ops_applied = (linkQ = QOfPot(M, curA, 0)))
 
 \* the run is over: what the saved frames and the whole history show
